@@ -94,6 +94,7 @@ func writeEvidence(id, tier string, seed int, cd *CheckDef, w *gosym.World, tota
 		"solver_unknown":                total.SolverUnknown,
 		"fallback_solver":               "cvc5 1.0.3 --incremental --solve-bv-as-int=sum (asked only when z3 answers unknown)",
 		"fallback_queries":              total.Fallbacks,
+		"solver_watchdog_restarts":      total.SolverKills,
 		"fallback_time_s":               round(total.FallbackTime.Seconds()),
 		"state_merges":                  total.Merges,
 		"unwinding_failures":            total.UnwindFail,
@@ -101,6 +102,8 @@ func writeEvidence(id, tier string, seed int, cd *CheckDef, w *gosym.World, tota
 		"vacuity_failures":              vac,
 		"assume_calls":                  total.Assumes,
 		"paths_completed":               total.PathsDone,
+		"complete":                      !(total.LimitHit || total.SolverUnknown > 0 || len(total.Unsupported) > 0 || total.UnwindFail > 0 || len(vac) > 0),
+		"budget_exhausted":              total.LimitHit,
 		"paths_pruned_infeasible":       total.Infeasible,
 		"known_findings_hit":            knownIDs,
 		"packages_loaded":               w.NumPkgs,
